@@ -58,7 +58,7 @@ func runC09(seed uint64, n int, out, stats string, _ []string) {
 		n1.Cleanup()
 		ra := map[int64]int{}
 		mode := r.Intn(3)
-		for b := int64(100); b < int64(100+len(h.Blocks)); b++ {
+		for b := int64(InitialHeight); b < int64(InitialHeight+len(h.Blocks)); b++ {
 			switch mode {
 			case 0: // restart after every block
 				ra[b] = 1
